@@ -4,6 +4,8 @@ import json, os
 ROOT = os.path.dirname(os.path.abspath(__file__))
 S = 'Engine S: symbolic execution of the clang-14 LLVM IR of the real translation unit (harness #includes the .cpp), z3 decides every assertion and every memory/UB obligation on every path'
 CLAIMED = {
+ 'C20': ('Bounded symbolic check of Node::perform_handshake (lifted from the current core/Node.cpp onto a partial Node with the real KeyManager, KeyExchange, ReputationManager): over every history of 2 (quick) / 3 (thorough) inbound handshakes of one claimed peer with symbolic keys, nonces and clock gaps, acceptance implies a valid key, rejection registers nothing, keeps existing keys and lowers the reputation; with symbolic difficulty, acceptance happens exactly when the key is valid and the PoW predicate holds.',
+         'handle_transport_handshake (negotiation, ack encoding) not encoded; histories run with difficulty 0; DH secret and SHA/HMAC uninterpreted; SessionManager::register_peer_key is a recording stub'),
  'C21': ('Bounded symbolic check of the announce throttle and lock-out kernels (lifted from the current core/Node.cpp onto a partial Node): over every timed sequence of 4 (quick) / 6 (thorough) announces of two interleaved peers an announce is admitted exactly when it respects the minimum interval and the burst limit of the window; three rejections within 120 s lock the peer out for exactly 180 s.',
          'ONLY the throttle / lock-out clause: the admissibility gate of handle_announce (manifest, shares, PoW, version, announcer identity) is not encoded'),
  'C23': ('Bounded symbolic check of the upload-slot bookkeeping (member functions lifted from the current core/Node.cpp onto a partial Node): over every sequence of 3 (quick) / 4 (thorough) requests, ticks and acknowledgements with symbolic limits, peers, chunks and clock, uploads stay within the overall and per-peer limits and each peer\'s slot counter equals its uploads in flight.',
